@@ -44,7 +44,9 @@ class DrawBudgetExceeded(BaseException):
 
 
 class DrawSource(object):
-    def __init__(self, plan, dseed, fired):
+    def __init__(self, plan, dseed, fired, length=None):
+        self.length = length
+        self.cum = 0.0
         self.plan = list(plan)
         self.pos = 0
         self.rng = random.Random(dseed)
@@ -71,11 +73,16 @@ class DrawSource(object):
                 x = 1e-3
             elif kind == 'huge':
                 x = 50.0
+            elif kind == 'land' and self.length is not None and self.length - self.cum > 0 and scale > 0:
+                # the cumulative sum lands (up to rounding) exactly on the end of the interval
+                x = (self.length - self.cum) / scale
+                kind = 'huge' if x > 10 else 'exp'
             else:
                 x = self.rng.expovariate(1.0)
                 kind = 'exp'
             self.fired['draw_' + ('tiny' if kind == 'small' else kind)] += 1
             out[k] = x * scale
+            self.cum += out[k]
         self.served += n
         if size is None:
             return float(out[0])
@@ -102,8 +109,10 @@ def generate(prop, rng, tier):
             if q < 0.6:
                 n = rng.choice([1, 2, 3, 10, 50, 400, 1500])
                 for _k in range(n):
-                    plan.append(rng.choice(['zero', 'tiny', 'small', 'exp', 'exp', 'huge'] if n < 20 else
+                    plan.append(rng.choice(['zero', 'tiny', 'small', 'exp', 'exp', 'huge', 'land'] if n < 20 else
                                            ['zero', 'tiny', 'small', 'zero', 'tiny']))
+                if rng.random() < 0.2:
+                    plan.append('land')
             ops.append({'op': 'poisson', 'rate': rate, 'interval': L if scalar else [t0, t0 + L],
                         'plan': plan, 'dseed': rng.randrange(1 << 30),
                         'twin': rng.random() < 0.3})
@@ -156,9 +165,10 @@ def _poisson(spk, rec, op, fired, made):
     real = np.random.exponential
     outs = []
     for rep in range(2 if op.get('twin') else 1):
-        src = DrawSource(op['plan'], op['dseed'], fired)
-        np.random.exponential = src.exponential
         iv = op['interval']
+        src = DrawSource(op['plan'], op['dseed'], fired,
+                         length=(float(iv[1]) - float(iv[0])) if isinstance(iv, list) else float(iv))
+        np.random.exponential = src.exponential
         status = 'ok'
         st = None
         with captured_stdout():
